@@ -97,6 +97,8 @@ def run_tlc(module, cfg, workdir=None, workers=None, timeout=1800, env=None, sim
     jo = java_opts or '-Xmx8g -Xss512m'
     if dfs:
         jo += ' -Dtlc2.tool.queue.IStateQueue=StateDeque'
+    # TLC unpacks its standard modules into java.io.tmpdir and leaves them there: keep that inside the run's metadir (removed below)
+    jo += f' -Djava.io.tmpdir={meta}'
     e['JAVA_TOOL_OPTIONS'] = jo
     if env:
         e.update({k: str(v) for k, v in env.items()})
